@@ -1,5 +1,5 @@
 (* C02 - list and scanning lemmas shared by the per-connection law proofs. *)
-From Coq Require Import NArith List Bool Arith Lia.
+From Coq Require Import NArith ZArith List Bool Arith Lia.
 From PV Require Import Common.Cases Common.Framing Common.Endian C02.Model.
 Import ListNotations.
 Local Open Scope N_scope.
@@ -129,3 +129,38 @@ Proof.
     + specialize (IH s' r). destruct (drain p f s' r); try discriminate.
       intro H. inversion H; subst. eapply IH; reflexivity.
 Qed.
+
+(* Two parsers that coincide wherever the second one does not fail: every loop run / sequence of
+   reads that the second completes without failure, the first completes identically. *)
+Section Agree.
+  Variables (S M : Type).
+  Variables p q : S -> bytes -> step N S M err.
+  Hypothesis agree : forall s x, (forall e, q s x <> Fail e) -> p s x = q s x.
+
+  Lemma drain_agree : forall fuel s x ms s' r,
+    drain q fuel s x = Out ms s' r -> drain p fuel s x = Out ms s' r.
+  Proof.
+    induction fuel as [|f IH]; intros s x ms s' r H.
+    - destruct x; exact H.
+    - destruct x as [|b t]; [exact H|]. rewrite drain_S in *.
+      destruct (q s (b :: t)) as [|e|m s1 r1] eqn:Q; try discriminate.
+      + rewrite agree by (rewrite Q; discriminate). rewrite Q. exact H.
+      + rewrite agree by (rewrite Q; discriminate). rewrite Q.
+        destruct (drain q f s1 r1) as [ms1 s2 r2| |] eqn:D; try discriminate.
+        rewrite (IH _ _ _ _ _ D). exact H.
+  Qed.
+
+  Lemma run_agree s x ms s' r : run q s x = Out ms s' r -> run p s x = Out ms s' r.
+  Proof. apply drain_agree. Qed.
+
+  Lemma feeds_agree : forall chunks s buf ms s' r,
+    feeds q s buf chunks = Out ms s' r -> feeds p s buf chunks = Out ms s' r.
+  Proof.
+    induction chunks as [|c cs IH]; intros s buf ms s' r H; [exact H|].
+    cbn [feeds] in *.
+    destruct (run q s (buf ++ c)) as [ms1 s1 r1| |] eqn:R; try discriminate.
+    rewrite (run_agree _ _ _ _ _ R).
+    destruct (feeds q s1 r1 cs) as [ms2 s2 r2| |] eqn:F; try discriminate.
+    rewrite (IH _ _ _ _ _ F). exact H.
+  Qed.
+End Agree.
